@@ -5,8 +5,8 @@ rows=[]
 for f in sorted(glob.glob('/verif/seeded/*/meta.json')):
     m=json.load(open(f)); name=f.split('/')[-2]
     r=m.get('result',{})
-    rows.append(f"| {name} | {m['property']} | {m.get('needs_to_manifest','').replace('|','/')} | {r.get('status','?')} | {r.get('detected_by','').replace('|','/')} |")
-table="<!-- SEEDED-TABLE-BEGIN -->\n| change | property | what it needs to manifest | result | detecting check / tier [signature] |\n|---|---|---|---|---|\n"+"\n".join(rows)+"\n<!-- SEEDED-TABLE-END -->"
+    rows.append(f"| {name} | {m['property']} | {m.get('needs_to_manifest','').replace('|','/')} | {r.get('status','?')} | {r.get('detected_by','').replace('|','/')} | {m.get('strengthening','').replace('|','/')} |")
+table="<!-- SEEDED-TABLE-BEGIN -->\n| change | property | what it needs to manifest | result | detecting check / tier [signature] | what I had to strengthen first |\n|---|---|---|---|---|---|\n"+"\n".join(rows)+"\n<!-- SEEDED-TABLE-END -->"
 p='/verif/DESIGN.md'; s=open(p).read()
 if '<!-- SEEDED-TABLE-BEGIN -->' in s:
     s=re.sub(r"<!-- SEEDED-TABLE-BEGIN -->.*<!-- SEEDED-TABLE-END -->", lambda _: table, s, flags=re.S)
